@@ -92,8 +92,48 @@ def c01(tier, seed):
     return out
 
 
+# ------------------------------------------------------------------------------------------------
+# C03
+# ------------------------------------------------------------------------------------------------
+
+def c03(tier, seed):
+    out = []
+    quick_dyn = sorted(set([1, 3, 6, 7, 8] + [[2, 4, 5][seed % 3]]))
+    for kind in ("s", "d"):
+        for n in range(1, 13):
+            q = (n <= 8) if kind == "s" else (n in quick_dyn)
+            fam = fam_name(kind, n)
+            u = T(n) + 2
+            tname = "LutN" if kind == "s" else "Lut"
+            for macro, op in (("c03_flip", "flip"), ("c03_swap", "swap"), ("c03_swap_adjacent", "swap_adjacent"),
+                              ("c03_cofactors", "cofactors"), ("c03_from_cofactors", "from_cofactors")):
+                if op == "swap_adjacent" and n < 2:
+                    continue
+                covers = {"reached": "SATISFIED"}
+                if op in ("flip", "cofactors", "from_cofactors"):
+                    covers["in-word index"] = "SATISFIED"
+                    covers["cross-word index"] = "SATISFIED" if n >= 7 else "UNSAT"
+                if op == "swap":
+                    covers["same index"] = "SATISFIED"
+                    covers["both in-word"] = "SATISFIED" if n >= 2 else "UNSAT"
+                    covers["one in-word one cross-word"] = "SATISFIED" if n >= 7 else "UNSAT"
+                    covers["both cross-word"] = "SATISFIED" if n >= 8 else "UNSAT"
+                if op == "swap_adjacent":
+                    covers["straddles the word boundary"] = "SATISFIED" if n >= 7 else "UNSAT"
+                heavy = op in ("swap", "flip") and n >= 11
+                out.append(spec("verif_c03", "c03.rs", macro, "c03_%s_%s" % (op, fam), [fam], u,
+                                tier="quick" if q else "thorough", n=n, fam=fam,
+                                mem=mem_for(n), timeout=900 if n <= 8 else 3000,
+                                mem_limit_gb=14 if n <= 10 else 30,
+                                covers=covers, optional=(n >= 12),
+                                what="%s on %s n=%d: symbolic table, symbolic index(es) < n, symbolic assignment m; result bit m equals the defining source bit; wf; in-place == copying"
+                                     % (op, tname, n)))
+    return out
+
+
 PROPS = {
     "C01": c01,
+    "C03": c03,
 }
 
 # property -> function(scratch, tier, seed, log) -> list of extra (non-Kani) obligation records
